@@ -159,6 +159,22 @@ pub struct RunConfig {
     pub minimise_budget_s: f64,
 }
 
+/// A signature of the form `P:family:a+b+c` is known when every component
+/// `P:family:a`, `P:family:b`, ... is an open known finding.
+pub fn sig_known(sig: &str, open: &BTreeSet<String>) -> bool {
+    if open.contains(sig) {
+        return true;
+    }
+    if let Some(pos) = sig.rfind(':') {
+        let (prefix, comps) = sig.split_at(pos);
+        let comps = &comps[1..];
+        if comps.contains('+') {
+            return comps.split('+').all(|c| open.contains(&format!("{}:{}", prefix, c)));
+        }
+    }
+    false
+}
+
 pub fn run_seed(seed: u64, prop: &str, index: u64) -> u64 {
     mix(&[seed, crate::rng::str_hash(prop), index])
 }
@@ -242,7 +258,7 @@ pub fn run_check(chk: &dyn Check, cfg: &RunConfig) -> i32 {
                     let mut known_here = Vec::new();
                     for v in &out.violations {
                         let sig = chk.signature(v);
-                        if open_sigs.contains(&sig) {
+                        if sig_known(&sig, &open_sigs) {
                             known_here.push(sig);
                         } else {
                             new_viol.push(v.clone());
@@ -442,7 +458,15 @@ pub fn scan(chk: &dyn Check, seed: u64, n: u64, tier: Tier) {
         let case = chk.generate(rs, i, tier);
         let out = chk.execute(&case);
         for v in &out.all {
-            let e = seen.entry(v.signature()).or_insert((i, v.detail.clone(), 0));
+            // ring-T histories: tell classes apart by the clause the closest attempt failed with
+            let mut sig = v.signature();
+            if let Some(p) = v.detail.find("closest attempt fails with [") {
+                let rest = &v.detail[p + 28..];
+                if let Some(q) = rest.find(']') {
+                    sig = format!("{} / {}", sig, &rest[..q]);
+                }
+            }
+            let e = seen.entry(sig).or_insert((i, v.detail.clone(), 0));
             e.2 += 1;
         }
     }
